@@ -8,58 +8,58 @@ E1NOTE = "Trusted: the reference interpreter /verif/mc/ref (plain loops written 
 CHECKS = {
  "C14": ("exploration", "E1", "bounded-exhaustive enumeration of all ordered shape pairs on the real helpers vs index-arithmetic reference",
          "Every ordered pair of shapes of rank 0..4 with extents 1..3 (thorough: 1..4) is pushed through the real MultidirectionalBroadcast/UnidirectionalBroadcast and compared element by element with an independent index-arithmetic reference; sources are deep-snapshotted before/after. Exhaustive within the box, which contains every branch combination of the helpers (rank difference, extent==1, extent equality).",
-         "Trusted: ref.BroadcastTo (20 lines of index arithmetic), gorgonia At()/Data() for reading results. Shapes beyond the box are only sampled (supplementary).", "DESIGN.md §3 C14"),
+         "Trusted: ref.BroadcastTo (20 lines of index arithmetic), gorgonia At()/Data() for reading results. Shapes beyond the box are only sampled (supplementary).", "DESIGN.md §3 (row C14)"),
  "C03": ("exploration", "E1", "bounded-exhaustive enumeration of operator x shape-pair x dtype x special-value pairs on the real operators vs per-element reference",
          "All 12 binary operators on every ordered pair of shapes of rank 0..4 (extents 1..3), every dtype the gate accepts, and all ordered pairs of a special-value alphabet (NaN payloads, +-Inf, +-0, subnormals, integer extremes) are executed through GetOperator/Init/ValidateInputs/Apply and through single-node Model.Run, and compared bit for bit with a per-element reference. The statement's three domains (must compute / compute-or-refuse / must refuse) are transcribed literally.",
-         E1NOTE, "DESIGN.md §3 C03"),
+         E1NOTE, "DESIGN.md §3 (row C03)"),
  "C07": ("exploration", "E1", "bounded-exhaustive enumeration of (shape, target/axes) requests incl. invalid ones, plus depth-2 operator-instance histories",
          "Every input shape of rank 0..4 (thorough 0..5) x every Reshape target over {-1,0,1,2,3,4,6}^(1..4), every Flatten axis in [-r-1,r+1], every Squeeze/Unsqueeze axes sequence (negative, unsorted, duplicate, out of range), Shape; valid requests must give the ONNX shape with identical element order, invalid ones must give an error (never a tensor, never a panic). Each case is additionally replayed on an operator instance that already served another request (history of depth 2).",
-         E1NOTE, "DESIGN.md §3 C07"),
+         E1NOTE, "DESIGN.md §3 (row C07)"),
  "C08": ("exploration", "E1", "bounded-exhaustive enumeration of permutations / axes / (start,end,step) triples / index assignments / target shapes on the real operators vs index-formula reference",
          "Transpose over all permutations (and invalid perms), Concat over 1..3 inputs x every axis x independent extents, Slice over every (start,end,step) in [-dim-2,dim+2] U {INT_MIN,INT_MAX} per axis with all spellings of axes/steps, Gather over every axis and ALL in-range index assignments for index ranks 0..2, Expand over every (input,target) shape pair; result must equal the ONNX index formula bit for bit, or be refused where the statement allows; invalid requests must be refused; never a panic. Plus depth-2 operator-instance histories.",
-         E1NOTE, "DESIGN.md §3 C08"),
+         E1NOTE, "DESIGN.md §3 (row C08)"),
  "C09": ("exploration", "E1", "bounded-exhaustive enumeration of axes / axes subsets / keepdims / tie and NaN placements / magnitude tuples on the real operators vs loop reference",
          "ArgMax over every axis x keepdims x every value tuple over {1,2,3,NaN} along the axis (all tie and NaN positions), ReduceMax/Min over every axes subset in three spellings (+absent, duplicate, out of range) x keepdims, Softmax/LogSoftmax over every axis x every magnitude tuple over {0,+-1,...,+-max}^n (n<=3); first-occurrence indices, exact shapes, int64 type, non-NaN finite normalised outputs vs a stable float64 reference. Plus depth-2 operator-instance histories.",
-         E1NOTE, "DESIGN.md §3 C09"),
+         E1NOTE, "DESIGN.md §3 (row C09)"),
  "C10": ("exploration", "E1", "exhaustive sweep of float bit patterns (thorough: all 2^32 float32 values per operator) + bounded-exhaustive shapes/slopes on the real operators vs Go math reference",
          "Every float operator is evaluated through the Operator API on a structured alphabet covering every binade, both signs, subnormals, +-0, +-Inf, NaN and function-domain boundaries (quick), and on ALL 2^32 float32 bit patterns (thorough), compared within 4 ulp (96 ulp for Sigmoid/Tanh evaluated in float32) with the Go math library; shape/dtype preservation over rank 0..4; PRelu over all (x, slope) shape pairs and special values; Abs over all gate dtypes incl. integer minimum; Not over bool.",
-         E1NOTE + " For the trigonometric/hyperbolic operators the reference and gonnx both rest on Go's math package (trusted base): the check targets wiring, dtype handling, special values and shape handling, not the accuracy of math.Sin itself.", "DESIGN.md §3 C10"),
+         E1NOTE + " For the trigonometric/hyperbolic operators the reference and gonnx both rest on Go's math package (trusted base): the check targets wiring, dtype handling, special values and shape handling, not the accuracy of math.Sin itself.", "DESIGN.md §3 (row C10)"),
  "C11": ("exploration", "E1", "bounded-exhaustive enumeration of attribute forms / value types x encodings x shapes / 10x10 cast pairs x in-range value alphabets on the real operators vs math/big reference",
          "Constant over every attribute form (8 names + unknown + wrong count), `value` in all 11 element types x both encodings x shapes of rank 0..2; ConstantOfShape over value absent / each type / wrong element counts x every shape operand of rank 1..4; Cast over all 100 numeric pairs x all in-range values of an alphabet that is complete for 8/16-bit sources and hits every power-of-two boundary and rounding tie for wider ones; results must be bit-exact with the right element type, unsupported forms must be refused with an error.",
-         E1NOTE, "DESIGN.md §3 C11"),
+         E1NOTE, "DESIGN.md §3 (row C11)"),
  "C04": ("exploration", "E1", "bounded-exhaustive enumeration of rank combinations / batch-shape pairs / transpose flags / alpha-beta / bias shapes on the real operators vs float64 loop reference with dot-product error bound",
          "MatMul over every pair of batch shapes (rank 0..2 quick, 0..3 thorough; broadcastable and not) x (m,k,n) in {1,2,3}^3 x vector promotion on either side; Gemm over all 4 transpose combinations x 20 (alpha,beta) pairs x (M,K,N) x 11 bias shapes (valid and invalid); LinearRegressor and Scaler over targets/features/batch/intercept/offset layouts; shape, dtype and every element within the dot-product rounding bound gamma_(2k+4)*sum|a_i b_i|; mismatches must be refused. A discrimination self-check verifies that the fills separate true semantics from swapped transpose flags / swapped alpha,beta.",
-         E1NOTE, "DESIGN.md §3 C04"),
+         E1NOTE, "DESIGN.md §3 (row C04)"),
  "C05": ("exploration", "E1", "bounded-exhaustive enumeration of convolution geometries (non-square images and kernels, strides, dilations, asymmetric pads, auto_pad modes, bias, batch/channel/kernel counts) on the real operator vs 6-loop direct convolution",
          "1-D and 2-D convolutions over the full product of (H,W) in {2,3,4}^2, (kh,kw) in {1,2,3}^2, strides and dilations in {1,2}^2, pads in {0,1}^4 or an auto_pad mode, bias, and five (N,C,M) combinations (thorough: all of {1,2}^3 plus strides/dilations/pads to 3 and H,W to 6 pairwise); output shape by the ONNX formula and every element within the dot-product rounding bound of the direct definition; group != 1, 3-D inputs and unknown auto_pad strings must be refused. A discrimination self-check shows the fills separate the truth from a flipped kernel and from swapped begin/end pads.",
-         E1NOTE, "DESIGN.md §3 C05"),
+         E1NOTE, "DESIGN.md §3 (row C05)"),
  "C06": ("exploration", "E1+E3", "bounded-exhaustive enumeration of geometries x optional-input subsets x attributes on the real operators vs scalar ONNX-equation reference; exhaustive split-point histories (two operator calls / two Runs on one Model)",
          "RNN, GRU, LSTM over all (seq,batch,input,hidden) in {1,2,3}^4 x every subset of optional inputs in both spellings x linear_before_reset / input_forget x all activation tuples; outputs must match the ONNX recurrences (gate order iofc / zrh, shapes [seq,1,batch,hidden], [1,batch,hidden]) or, for attributes the statement allows to refuse, be refused - never ignored. Every sequence with seq>=2 is additionally processed in two pieces at every split point, through the Operator API and through two Runs on one Model feeding the returned state tensors back, and must reproduce the unsplit result. A discrimination self-check proves the weights separate the true equations from swapped gate order, swapped bias/peephole slots and flipped attributes.",
-         E1NOTE, "DESIGN.md §3 C06"),
+         E1NOTE, "DESIGN.md §3 (row C06)"),
  "C12": ("fault_enumeration", "E5+E1", "exhaustive enumeration of (element type x encoding x shape x bit pattern) payloads and of every payload / dims / data_type fault around them, through the real decoder at three observation points",
          "All 11 element types x both encodings x all shapes of rank 0..3 (thorough 0..4) with NaN payloads, extremes and, for 8/16-bit types, every value, must decode bit-exactly with the declared shape and type - observed at onnx.TensorFromProto, as an initializer returned by NewModelFromBytes+Run and as a Constant value. Every payload fault (raw length +-1 byte / +-1 element / empty / doubled, typed field +-1 element, no payload, both encodings, negative / zero / huge dims) and every other data_type code with each typed carrier populated must be refused with an error: never other values, another type or a panic.",
-         "Trusted: the reference decoder rule (declared dims x declared type; ONNX carrier fields; little-endian raw) and gorgonia accessors for reading the result.", "DESIGN.md §3 C12"),
+         "Trusted: the reference decoder rule (declared dims x declared type; ONNX carrier fields; little-endian raw) and gorgonia accessors for reading the result.", "DESIGN.md §3 (row C12)"),
  "C13": ("exploration", "E1", "bounded-exhaustive enumeration of declared signatures x supplied tensor sets through the real Model.Run vs the accept predicate",
          "Every one-input signature of rank 1..3 (thorough 1..4) with each dimension fixed(2), fixed(3), symbolic or unspecified is run against a supplied tensor of EVERY shape of rank 0..4 (0..5); Run must fail (no outputs, inputs untouched) exactly when the rank or a fixed dimension differs and succeed otherwise; multi-input signatures with every subset of names missing, permuted tensors, extra names, and inputs shadowed by initializers; the introspection accessors must report exactly what Run enforces, axis by axis.",
-         "Trusted: the three-line accept predicate; the ONNX ValueInfoProto builder of the harness.", "DESIGN.md §3 C13"),
+         "Trusted: the three-line accept predicate; the ONNX ValueInfoProto builder of the harness.", "DESIGN.md §3 (row C13)"),
  "C15": ("model_checking", "E1+E3", "exhaustive enumeration of the finite gate space (55 operators x input counts x dtype placements x nil) on the real ValidateInputs, plus exhaustive interleavings of <Get, Init, Apply> lookup histories against isolated results",
          "For every name of opset13.GetOpNames(): every input count 0..max+2 and dtype placement (full 15^n product for arity <= 2; every homogeneous row with all single- and a fixed menu of two-position deviations otherwise) must be rejected with an *ops.InputError exactly when the operator's own declaration says so - never a panic, never an out-of-range index into a short constraint table - and accepted lists must come back padded with nil to the maximum with the supplied tensors pointer-identical and untouched. 120 unregistered names must give ErrUnsupportedOperator. For 22 operator/attribute specs all 20 interleavings of two lookups and (thorough: all 1680, quick: every 7th) of three lookups are executed; each Apply must equal its isolated result.",
-         "Trusted: the operator's own GetMin/GetMax/GetInputTypeConstraints as the declaration the gate must enforce; isolated execution as the differential oracle for lookup independence.", "DESIGN.md §3 C15"),
+         "Trusted: the operator's own GetMin/GetMax/GetInputTypeConstraints as the declaration the gate must enforce; isolated execution as the differential oracle for lookup independence.", "DESIGN.md §3 (row C15)"),
  "C18": ("fault_enumeration", "E5", "exhaustive byte-level fault enumeration (every truncation offset, every single-byte substitution) and field-level structural fault enumeration of seed models through the real loader under recover()",
          "Around 30 seed models (the repository's samples incl. the zip and the invalid mnist file, plus generated models covering every initializer type/encoding and attribute kind) every prefix and every single-byte substitution (all 256 values for small seeds) is loaded with NewModelFromBytes under recover(), plus a structural fault menu on every initializer, node, attribute and value-info field; loading must return a model or an error, never panic. Every opset version in {-1,0..25,2^31,2^63-1} in six import arrangements must load iff the highest version is 13 and otherwise fail with ErrUnsupportedOpsetVersion; 120 unregistered operator names at each position of a 3-node graph must make Run fail with ErrUnsupportedOperator and no outputs.",
-         "Trusted: recover()-based panic detection (a fatal runtime error such as stack exhaustion would abort the process and is reported as a harness failure). 'All byte strings' is covered as the 1-fault neighbourhood of ~30 seeds, not 256^n.", "DESIGN.md §3 C18"),
+         "Trusted: recover()-based panic detection (a fatal runtime error such as stack exhaustion would abort the process and is reported as a harness failure). 'All byte strings' is covered as the 1-fault neighbourhood of ~30 seeds, not 256^n.", "DESIGN.md §3 (row C18)"),
  "C01": ("model_checking", "E2", "breadth-first enumeration of the program-construction transition system; every reachable program is executed by the real loader + Model.Run and compared with a reference graph evaluator",
          "State = program prefix, transition = append one node instance (template x every wiring x output naming scheme). All programs of depth <= 2 over 16 templates (~186k programs incl. two nodes of the same operator type with different attributes, fan-out/fan-in, optional inputs absent by omission or by empty name, multi-output nodes with arbitrary / permuted / partly omitted output names, initializers that are also graph inputs) and depth-3 chains over a reduced alphabet are marshalled to bytes, loaded with NewModelFromBytes and Run with every intermediate value declared as graph output; each declared output must be present, non-nil and equal to the reference environment.",
-         "Trusted: the reference node evaluator (refeval.go over /verif/mc/ref). Depth and tensor sorts are bounded (shapes (2,2),(2,1,2),(1,1,2)); every trace is an implementation trace, so traces_validated_against_impl = programs executed.", "DESIGN.md §3 C01"),
+         "Trusted: the reference node evaluator (refeval.go over /verif/mc/ref). Depth and tensor sorts are bounded (shapes (2,2),(2,1,2),(1,1,2)); every trace is an implementation trace, so traces_validated_against_impl = programs executed.", "DESIGN.md §3 (row C01)"),
  "C02": ("model_checking", "E3", "explicit enumeration of ALL call histories up to a depth on one real Model per subject, with deep state snapshots and a reference-model oracle after every call",
          "For ~330 subjects (every registered operator as a single-node model under every caller-input / initializer role assignment, two producer->consumer compositions, the sample models) every sequence of depth <= 3 (thorough 4) over {Run(A), Run(B), Run(fresh A), failing Run (wrong rank), failing Run (missing input), Run with the previous state outputs fed back} is executed on a freshly loaded Model; after every call the outputs must equal the reference evaluation and be bit-identical to the first Run on the same values, and deep snapshots of both caller tensor sets, of every weight tensor (via the verif hook) and of the marshalled proto must equal load time.",
-         "Trusted: the reference model evaluator; hx.Snapshot (shape, strides, dtype, flags, all element bits). Hook: Model.VerifParameters / VerifModelProto (build tag verif).", "DESIGN.md §3 C02"),
+         "Trusted: the reference model evaluator; hx.Snapshot (shape, strides, dtype, flags, all element bits). Hook: Model.VerifParameters / VerifModelProto (build tag verif).", "DESIGN.md §3 (row C02)"),
  "C16": ("exploration", "E2/E1", "exhaustive enumeration of every batch composition (all sequences over a sample pool up to a length) for the sample models and generated per-sample models, executed by the real Model.Run and compared row by row with the solo evaluation",
          "For 119 models (sample models; every 1- and 2-stage combination of per-sample operators; Conv 1-D/2-D; RNN/GRU/LSTM with/without states; the gru.onnx wrapping) EVERY batch over a pool of 3 (thorough 4) distinct samples of length 1..3 (1..4) - i.e. all batch sizes, permutations, sub-selections and repetitions up to the bound - is run; position i of each output must equal the output of evaluating that sample alone (N=1).",
-         "Trusted: stacking / row extraction of the harness (ref.Concat / ref.Slice). Differential oracle: the implementation's own N=1 result, as the property states.", "DESIGN.md §3 C16"),
+         "Trusted: stacking / row extraction of the harness (ref.Concat / ref.Slice). Differential oracle: the implementation's own N=1 result, as the property states.", "DESIGN.md §3 (row C16)"),
  "C17": ("model_checking", "E4", "stateless model checking of the real Model.Run goroutines under a cooperative scheduler: depth-first enumeration of all schedules up to a preemption bound; hardware write trap (mmap/mprotect) on all Model-owned shared state; supplementary free-running and -race passes",
          "Threads {Run(A);Run(B)} || {Run(B)} (|| {NewModelFromBytes;Run(A)}) on one shared Model are executed under a cooperative scheduler with scheduling points before GetOperator/Init/ValidateInputs/Apply of every node; ALL schedules with <= 2 (thorough 3) preemptions for 2 threads and <= 1 (2) for 3 threads are enumerated for 67 subjects covering every operator; each thread must return its solo result and the shared-state digest must never change. Independently, for 229 subjects the weights and proto slices are write-protected in an mmap arena: a single frozen execution per input proves Run performs no write (not even a transient one) to Model-owned shared state, for every schedule and any number of goroutines. Free-running 16-goroutine runs (and a -race build in thorough) cover intra-phase interference on state outside the arena by sampling only - stated as supplementary.",
-         "Trusted: the cooperative scheduler (exactly one thread runs; replay of a recorded schedule is checked to be deterministic), mprotect + debug.SetPanicOnFault. Not modelled: weak memory behaviours; interleavings inside one operator phase over package-level state (only the supplementary passes see those).", "DESIGN.md §3 C17"),
+         "Trusted: the cooperative scheduler (exactly one thread runs; replay of a recorded schedule is checked to be deterministic), mprotect + debug.SetPanicOnFault. Not modelled: weak memory behaviours; interleavings inside one operator phase over package-level state (only the supplementary passes see those).", "DESIGN.md §3 (row C17)"),
 }
 NA_REASON = "check not built yet in this session (see DESIGN.md §7 order of construction); decidable by bounded exhaustive exploration, to be claimed once its explorer exists"
 def main():
